@@ -352,23 +352,25 @@ def c15_3(ctx: Ctx) -> RuleResult:
     rs = plan.methods.get("run_step")
     if rs is None:
         raise AnalysisError("Plan.run_step not found")
-    cfg = cfg_of(ctx.repo, rs)
-    pf = PathFinder(cfg, dataflow_of(ctx.repo, rs))
-    tests = set()
-    for n in nodes_in(rs, ast.If):
-        if any(isinstance(x, ast.Attribute) and x.attr in (latch, "aborted") for x in ast.walk(n.test)) and any(isinstance(x, ast.Raise) for s in n.body for x in ast.walk(s)):
-            # the raise must be on the true branch of a positive test
-            positive = not (isinstance(n.test, ast.UnaryOp) and isinstance(n.test.op, ast.Not))
-            if positive:
-                tests.update(cfg.node_containing(n.test))
+    from ..util import bool_nnf, path_condition
+
     runs = [c for c in calls_in(rs) if isinstance(c.func, ast.Attribute) and c.func.attr == "run"]
+    raises_aborted = any(isinstance(x, ast.Raise) and x.exc is not None and "PlanAborted" in ast.unparse(x.exc) for x in ast.walk(rs.node))
     for c in runs:
-        for n in cfg.node_containing(c):
-            path = pf.find_path(cfg.entry, lambda m, n=n: m is n, blocked=lambda m: m in tests)
-            # and with the latch set the call is unreachable: the true branch raises
-            res.add(rs, c, "the aborted test (raising PlanAborted) is passed before the step runs", path is None,
-                    "" if path is None else "a step can run on an aborted plan", [] if path is None else describe_path(rs, path),
-                    construct="run_step: aborted test before step.run")
+        st_ = c
+        while parent(st_) is not None and not isinstance(st_, ast.stmt):
+            st_ = parent(st_)
+        pc = path_condition(ctx, rs, st_)
+        guarded = False
+        if pc:
+            g_ = bool_nnf(("bool", "and", tuple(c_ if p_ else ("unary", "not", c_) for c_, p_ in pc)))
+            for it in (g_[1] if g_[0] == "and" else [g_]):
+                # the step runs only where the latch is False
+                if it[0] == "lit" and it[2] is False and it[1][0] == "attr" and it[1][2] in (latch, "aborted") and it[1][1][0] == "param":
+                    guarded = True
+        ok = guarded and raises_aborted
+        res.add(rs, c, "the aborted test (raising PlanAborted) is passed before the step runs", ok,
+                "" if ok else "a step can run on an aborted plan", construct="run_step: aborted test before step.run")
     if not runs:
         raise AnalysisError("no step.run call in Plan.run_step")
     # every step latches the plan when its exit code is USER_ABORT
